@@ -266,6 +266,10 @@ func c05Run(c *run.Ctx, ci int, k c05Case) {
 		out := s.W.Token(mergeForm(url.Values{"grant_type": {"refresh_token"}, "refresh_token": {tok.Value}}, form), world.Basic(k.Client, "s5"))
 		c.Case(fmt.Sprintf("refresh after edit=%s strategy=%s ok=%v err=%s", k.Edit, k.Strategy, out.Err == nil, out.ErrName))
 		c.Count("c05_refused_after_narrowing", 1)
+		if c05Sampled < 2 {
+			c05Sampled++
+			c.Sample(map[string]interface{}{"case": k.String(), "history": append(append([]string(nil), s.Hist...), fmt.Sprintf("registration edit %s, then refresh by the owner => %s", k.Edit, world.ErrDetail(out.Err)))})
+		}
 		if out.Err == nil {
 			c.Violate(run.Violation{Kind: "refresh-after-registration-narrowed", Key: fmt.Sprintf("refresh-after-registration-narrowed edit=%s", k.Edit), Case: caseID,
 				Detail: "refresh honoured although the registration no longer allows the grant: " + k.String(), History: s.Hist})
@@ -274,10 +278,14 @@ func c05Run(c *run.Ctx, ci int, k c05Case) {
 	}
 	s.Refresh(tok, as, form)
 	s.Sweep("refresh-with-params")
-	if ci < 40 {
+	if c05Sampled < 2 {
+		c05Sampled++
 		c.Sample(map[string]interface{}{"case": k.String(), "history": s.Hist})
 	}
 }
+
+// c05Sampled counts the cases this process has written out as samples (each shard is its own process).
+var c05Sampled int
 
 func removeStr(xs []string, x string) []string {
 	var o []string
